@@ -365,6 +365,14 @@ type obs struct {
 }
 
 // exchange runs one (orig, threshold, edit) through client constructors, wire edit, DecodeTunnelledQuery and server
+type heldReq struct {
+	req  *http.Request
+	want fields
+	orig AReq
+}
+
+var held *heldReq
+
 func exchange(h http.Handler, orig AReq, q string, th int, edit string) (o obs) {
 	w, ok, err := build(orig, q, th)
 	if !ok {
@@ -459,6 +467,30 @@ func main() {
 			if o.Panic != "" {
 				violation("C14/panic/"+row.Edit, o.Panic, cs)
 				continue
+			}
+			// late read: a de-tunnelled request is a value of its own -- its query and body must still be the caller's
+			// after the NEXT tunnelled request has been de-tunnelled (a handler may read the body whenever it likes)
+			if o.Tunnelled && row.Edit == "none" {
+				func() {
+					defer func() { recover() }()
+					w, ok, err := build(row.Orig, q, row.Th)
+					if !ok || err != nil {
+						return
+					}
+					sreq := serverRequest(w)
+					if restli.DecodeTunnelledQuery(sreq) != nil {
+						return
+					}
+					ref, _, _ := build(row.Orig, q, 0)
+					rreq := serverRequest(ref)
+					restli.DecodeTunnelledQuery(rreq)
+					if held != nil {
+						if got := fieldsOf(held.req); got != held.want {
+							violation("C14/not-transparent/late-read", "a de-tunnelled request read after the next one was de-tunnelled is no longer the request that was sent", map[string]any{"orig": held.orig, "got": got, "want": held.want})
+						}
+					}
+					held = &heldReq{req: sreq, want: fieldsOf(rreq), orig: row.Orig}
+				}()
 			}
 			if o.Tunnelled != row.Tunnelled {
 				violation("C14/threshold", fmt.Sprintf("query of %d bytes, threshold %d: tunnelled=%v, specification %v", len(q), row.Th, o.Tunnelled, row.Tunnelled), cs)
